@@ -111,6 +111,9 @@ type c11Case struct {
 	Value   int64      `json:"acct_value,omitempty"`
 	Buckets []uint32   `json:"buckets,omitempty"`
 	Note    string     `json:"note,omitempty"`
+	// Expect = "exceeds": a witness outside the property's guards for which the debit exceeds the reserve
+	// (the Lean counter-example theorems); the run only records whether the real code reproduces it.
+	Expect string `json:"expect,omitempty"`
 }
 
 // c11Archived is the property's text: executed, canceled, expired and failed
@@ -277,7 +280,7 @@ func runC11(r *Run) {
 	}
 
 	// ---- (1) premium ----
-	c11PremiumStream(r, 2*r.N)
+	c11PremiumStream(r, 2*r.N+r.N/8)
 
 	// ---- EstimateTraderFee ----
 	for i := 0; i < r.N/20+50; i++ {
@@ -299,7 +302,7 @@ func runC11(r *Run) {
 	}
 
 	// ---- (3) exhaustive fill partitions ----
-	umax := 10
+	umax := 11
 	if r.Tier == "thorough" || r.Search {
 		umax = 14
 	}
@@ -705,6 +708,15 @@ func c11RunFills(r *Run, c c11Case, fromGen bool) {
 			}
 		}
 	}
+	if c.Expect == "exceeds" {
+		if total.Cmp(new(big.Int).Add(big.NewInt(rv), big.NewInt(2*int64(nFills)))) > 0 {
+			r.Count("witness/guard-needed-reproduced")
+		} else {
+			r.Count("witness/guard-needed-NOT-reproduced")
+			r.Notes = append(r.Notes, fmt.Sprintf("guard witness no longer exceeds: debit %v reserved %d", total, rv))
+		}
+		return
+	}
 	// the property's quantifier
 	if o.MaxFee < int64(chainfee.FeePerKwFloor) {
 		// such an order is never admitted (validateOrder); the 2-sat-per-match tolerance needs a non-zero
@@ -746,7 +758,10 @@ func c11Out(v int64, panicked bool) string {
 func c11Partitions(r *Run, umax int) {
 	for U := 1; U <= umax; U++ {
 		for m := 1; m <= U; m++ {
-			reps := 2
+			reps := 12
+			if r.Tier == "thorough" || r.Search {
+				reps = 30
+			}
 			for rep := 0; rep < reps; rep++ {
 				o, base, ppm, ver := c11GenOrder(r)
 				o.Unfilled, o.MinUnits = uint64(U), uint64(m)
@@ -756,7 +771,7 @@ func c11Partitions(r *Run, umax int) {
 				if o.MaxFee < 253 || o.MaxFee > 1e8 {
 					o.MaxFee = 253 + int64(r.Rng.Intn(5000))
 				}
-				if rep == 0 { // adversarial for rounding: no base fee, lowest fee rate
+				if rep%3 == 0 { // adversarial for rounding: no base fee, lowest fee rate
 					base, o.MaxFee = 0, 253
 				}
 				if ppm > 1e6 {
